@@ -259,3 +259,39 @@ def check(ctx: Ctx) -> None:
                           file=fv.file, node=fv.node)
         else:
             ctx.ok("NK2", inst)
+
+
+def thorough(ctx: Ctx) -> None:
+    """Thorough tier: the remaining boolean configuration/call parameters are enumerated too -- `flag_simplify_time_signature`
+    (must not influence any template: it occurs in neither builder) and `insert_bar_token` (the emitter then produces no BAR token;
+    every other shape must still be a vocabulary shape)."""
+    import ast as _ast
+    p = ctx.p
+    fv = p.func(f"{TOK}._construct_dictionary")
+    fe = p.func(f"{TOK}.tokenise")
+    uses = [n for f in (fv, fe) for n in _ast.walk(f.node) if isinstance(n, _ast.Attribute) and n.attr == "flag_simplify_time_signature"]
+    ctx.check(not uses, "TPL1", "flag_simplify_time_signature influences neither string builder", function=fv.qualname,
+              construct="flag_simplify_time_signature is read by a token string builder", message="", file=fv.file, node=uses[0] if uses else fv.node)
+    from ..engines.templates import StringInterp, emitter_domains
+    n = 0
+    bad = 0
+    for fl in T.all_flag_assignments():
+        vocab = {parse_parts(t, {}) for t in T.vocabulary_templates(p, fl)}
+        doms = emitter_domains(p, fe)
+
+        def fd(e, interp, st, doms=doms):
+            import ast as a_
+            if isinstance(e, a_.Name) and e.id in doms:
+                return doms[e.id][0]
+            return f"UNKNOWN({short(e, 30)})"
+        si = StringInterp(p, fe, fl, fd, out_lists={T.result_list_name(fe.node)}, extra={"insert_bar_token": False, "flag_running_time_signature": True})
+        si.run_function(fe.node, {})
+        for t in si.emitted:
+            n += 1
+            if parse_parts(t, {}) not in vocab:
+                bad += 1
+                ctx.violation("TPL1", f"[{T.flag_label(fl)}, insert_bar_token=False] emitted `{show(t)}`", function=fe.qualname,
+                              construct=f"emitted token shape `{show(t)}` is not a vocabulary key shape (bar tokens off)", message="", file=fe.file, node=si.emitted[t])
+    if not bad:
+        ctx.ok("TPL1", f"insert_bar_token=False: {n} emitted shapes over 16 flag assignments all in the vocabulary")
+    ctx.extra["thorough_assignments"] = 32
